@@ -200,17 +200,18 @@ Section Commit.
   Definition dirty_at (ss : sess) (path : list N) : bool :=
     existsb (is_prefix_of path) (s_dkeys ss) || existsb (bytes_eqb path) (s_dins ss).
 
-  (* after Trie.Hash(): flags.hash != nil for a dirty node *)
-  Definition hashedb (path enc : list N) : bool :=
-    match path with [] => true | _ => Nat.leb 32 (length enc) end.
+  (* after Trie.Hash(): flags.hash != nil for a dirty node iff it was hashed with
+     force (the root) or its encoding has >= 32 bytes *)
+  Definition hashedb (force : bool) (enc : list N) : bool :=
+    force || Nat.leb 32 (length enc).
 
   (* committer.store *)
-  Definition store_node (tr : tracer) (path : list N) (n : node) (ns : nodeset)
+  Definition store_node (tr : tracer) (force : bool) (path : list N) (n : node) (ns : nodeset)
     : option (node * nodeset) :=
     match node_enc H n with
     | None => None                                   (* the hasher would have panicked *)
     | Some e =>
-        if hashedb path e then
+        if hashedb force e then
           let h := H e in
           Some (NHash h, am_put path (Upd h e (pv_get path tr)) ns)
         else
@@ -220,62 +221,70 @@ Section Commit.
           end
     end.
 
-  (* committer.commit / commitChildren (the parallel variant merges disjoint
-     child sets: same set).  [dirty] = nodeFlag.dirty by path.  None = panic.
-     fuel = nesting depth. *)
-  Fixpoint commit_node (fuel : nat) (dirty : list N -> bool) (tr : tracer)
+  (* committer.commitChildren: children 0..15 that are neither nil nor hashNode are
+     committed recursively ([rec]); child 16 is left alone.  The parallel variant
+     merges disjoint child sets: the same set. *)
+  Fixpoint commit_children (rec : list N -> node -> nodeset -> option (node * nodeset))
+           (path : list N) (i : N) (l : list node) (ns : nodeset)
+    : option (list node * nodeset) :=
+    match l with
+    | [] => Some ([], ns)
+    | c :: r =>
+        let rc :=
+          if N.eqb i 16 then Some (c, ns)
+          else match c with
+               | NEmpty | NHash _ => Some (c, ns)
+               | _ => rec (path ++ [i]) c ns
+               end in
+        match rc with
+        | None => None
+        | Some (c', ns') =>
+            match commit_children rec path (i + 1) r ns' with
+            | None => None
+            | Some (r', ns'') => Some (c' :: r', ns'')
+            end
+        end
+    end.
+
+  (* hash, dirty := n.cache(); hash != nil && !dirty: the cached hash *)
+  Definition clean_hashed (dirty : list N -> bool) (force : bool) (path : list N) (n : node)
+    : option (list N) :=
+    match n with
+    | NShort _ _ | NFull _ =>
+        if dirty path then None
+        else match node_enc H n with
+             | Some e => if hashedb force e then Some (H e) else None
+             | None => None
+             end
+    | _ => None
+    end.
+
+  (* committer.commit.  [dirty] = nodeFlag.dirty by path; [force] = this is the
+     root (hashed by Trie.Hash with force).  None = panic.  fuel = nesting depth. *)
+  Fixpoint commit_node (fuel : nat) (dirty : list N -> bool) (tr : tracer) (force : bool)
            (path : list N) (n : node) (ns : nodeset) : option (node * nodeset) :=
     match fuel with
     | O => None
     | S f =>
-        (* hash, dirty := n.cache(); if hash != nil && !dirty { return hash } *)
-        let clean_hashed :=
-          match n with
-          | NShort _ _ | NFull _ =>
-              if dirty path then None
-              else match node_enc H n with
-                   | Some e => if hashedb path e then Some (H e) else None
-                   | None => None
-                   end
-          | _ => None
-          end in
-        match clean_hashed with
+        match clean_hashed dirty force path n with
         | Some h => Some (NHash h, ns)
         | None =>
             match n with
             | NShort k c =>
+                (* only a fullNode child is committed; otherwise it can only be
+                   hashNode or valueNode *)
                 let rc := match c with
-                          | NFull _ => commit_node f dirty tr (path ++ k) c ns
+                          | NFull _ => commit_node f dirty tr false (path ++ k) c ns
                           | _ => Some (c, ns)
                           end in
                 match rc with
                 | None => None
-                | Some (c', ns') => store_node tr path (NShort k c') ns'
+                | Some (c', ns') => store_node tr force path (NShort k c') ns'
                 end
             | NFull cs =>
-                let fix children (i : N) (l : list node) (ns : nodeset)
-                  : option (list node * nodeset) :=
-                  match l with
-                  | [] => Some ([], ns)
-                  | c :: r =>
-                      let rc :=
-                        if N.eqb i 16 then Some (c, ns)
-                        else match c with
-                             | NEmpty | NHash _ => Some (c, ns)
-                             | _ => commit_node f dirty tr (path ++ [i]) c ns
-                             end in
-                      match rc with
-                      | None => None
-                      | Some (c', ns') =>
-                          match children (i + 1) r ns' with
-                          | None => None
-                          | Some (r', ns'') => Some (c' :: r', ns'')
-                          end
-                      end
-                  end in
-                match children 0 cs ns with
+                match commit_children (commit_node f dirty tr false) path 0 cs ns with
                 | None => None
-                | Some (cs', ns') => store_node tr path (NFull cs') ns'
+                | Some (cs', ns') => store_node tr force path (NFull cs') ns'
                 end
             | NHash _ => Some (n, ns)
             | _ => None                               (* nil, valuenode shouldn't be committed *)
@@ -308,7 +317,7 @@ Section Commit.
               end in
             if negb root_dirty then Some (rh, None)
             else
-              match commit_node commit_fuel (dirty_at ss) (s_tr ss) [] root
+              match commit_node commit_fuel (dirty_at ss) (s_tr ss) true [] root
                                 (add_deletions (s_tr ss) []) with
               | Some (NHash _, ns) => Some (rh, Some ns)
               | _ => None                              (* .(hashNode) assertion *)
@@ -328,25 +337,4 @@ Section Commit.
          | HashScheme, Del _ => s
          end) ns s.
 
-  (* ---------- executable session invariant (checked on every correspondence
-     case by Run/C07.v; hypothesis of the _partial theorems) ---------- *)
-
-  (* all positions of the in-memory trie: (path, node) for every short/full/hash node *)
-  Fixpoint positions (fuel : nat) (path : list N) (n : node) : list (list N * node) :=
-    match fuel with
-    | O => []
-    | S f =>
-        match n with
-        | NShort k c => (path, n) :: positions f (path ++ k) c
-        | NFull cs =>
-            (path, n) ::
-            (fix go (i : N) (l : list node) : list (list N * node) :=
-               match l with
-               | [] => []
-               | c :: r => positions f (path ++ [i]) c ++ go (i + 1) r
-               end) 0 cs
-        | NHash _ => [(path, n)]
-        | _ => []
-        end
-    end.
 End Commit.
